@@ -116,6 +116,19 @@ func shapeDiff(a, b reflect.Value, path string, o ShapeOpts, depth int) string {
 			}
 			fa := ua.Field(i)
 			fbT, ok := tb.FieldByName(f.Name)
+			if !ok && name == "SendStmt" && f.Name == "Value" {
+				// go/ast.SendStmt.Value corresponds to the single element of xgo/ast.SendStmt.Values
+				if vs := ub.FieldByName("Values"); vs.IsValid() && vs.Kind() == reflect.Slice {
+					seen["Values"] = true
+					if vs.Len() != 1 {
+						return fmt.Sprintf("%s.Values: %d values for a Go send statement", path, vs.Len())
+					}
+					if d := shapeDiff(fa, vs.Index(0), path+".Value", o, depth+1); d != "" {
+						return d
+					}
+					continue
+				}
+			}
 			if !ok {
 				if !isZeroish(fa) {
 					return fmt.Sprintf("%s.%s: field only on the left and not zero (%s)", path, f.Name, describe(fa))
@@ -135,6 +148,9 @@ func shapeDiff(a, b reflect.Value, path string, o ShapeOpts, depth int) string {
 		}
 		for i := 0; i < tb.NumField(); i++ {
 			f := tb.Field(i)
+			if name == "SendStmt" && f.Name == "Values" && seen["Values"] {
+				continue
+			}
 			if !f.IsExported() || seen[f.Name] || shapeSkip[f.Name] || shapeSkip[name+"."+f.Name] || o.IgnoreFields[f.Name] || o.IgnoreFields[name+"."+f.Name] || f.Type == posType {
 				continue
 			}
